@@ -8,6 +8,9 @@ import (
 
 // DecodeUserDataRegisteredSEI decodes a SEI message of type 4.
 func DecodeUserDataRegisteredSEI(sd *SEIData) (SEIMessage, error) {
+	if len(sd.payload) < 8 {
+		return nil, fmt.Errorf("user data registered SEI payload of %d bytes is shorter than its 8-byte header", len(sd.payload))
+	}
 	itutData := ITUData{
 		CountryCode:      sd.payload[0],
 		ProviderCode:     binary.BigEndian.Uint16(sd.payload[1:3]),
@@ -117,6 +120,9 @@ func (s *CEA608sei) Payload() []byte {
 // This is specified in Section 4.3 of ANSI/CTA-708-E R-2018.
 func ParseCEA608(payload []byte) ([]byte, []byte, error) {
 	pos := 0
+	if len(payload) < 1 {
+		return nil, nil, fmt.Errorf("not enough data for CEA-708 parsing")
+	}
 	ccCount := payload[pos] & 0x1f
 	pos += 2 // Advance 1 and skip reserved byte
 	var field1 []byte
